@@ -300,6 +300,24 @@ def run_property(ctx, prop, replay=None):
             d["obligation"] = "hypotheses:pwf_b-holds-of-exported-graphs"
             ctx.fail("C02:theorem-hypotheses-not-met", "an exported graph does not meet the hypotheses (pwf_b) of C02_no_path_errors", d, False)
         ctx.coverage["graphs_covered_by_C02_no_path_errors"] = len(cases) - len(res["trav_pwf"])
+    if prop == "C03":
+        # the hypotheses of C03_present_setup_never_executed (cls_all_b: the copies of every ordinary stateful test with the
+        # global reuse scope lie in the graph, see the same class and agree on their kind) on every exported graph
+        from harness.common import coq_failing
+        res = coq_failing(ctx, travgen.IMPORTS, "trav_case", [c["term"] for c in cases], ["trav_cls"],
+                          shard=max(1, len(cases) // 16 + 1), tag="cls", timeout=900)
+        # (copies of one class can derive different reuse scopes for mixed lxc/remote worker sets under a partial pool_scope - the
+        # second C01 known finding; those graphs are outside the theorem and only covered by the monitors)
+        mixed = [k for k in res["trav_cls"] if len({w.get("spawner", "lxc") for w in cases[k]["spec"]["workers"]}) > 1]
+        other = [k for k in res["trav_cls"] if k not in mixed]
+        ctx.obligation("hypotheses:cls_all_b-holds-of-exported-graphs", "correspondence", not other,
+                       f"{len(res['trav_cls'])} of {len(cases)} exported graphs have a class of setup-test copies that does not meet cls_b, "
+                       f"{len(mixed)} of them with mixed lxc/remote workers (scope disagreement)")
+        for k in other[:1]:
+            d = travgen.replay_data(cases[k])
+            d["obligation"] = "hypotheses:cls_all_b-holds-of-exported-graphs"
+            ctx.fail("C03:theorem-hypotheses-not-met", "an exported graph does not meet the hypotheses (cls_all_b) of C03_present_setup_never_executed", d, False)
+        ctx.coverage["graphs_covered_by_C03_present_setup_never_executed"] = len(cases) - len(res["trav_cls"])
     if prop == "C04":
         # the hypotheses of C04_mutual_exclusion on every exported graph: one owner per node, bridged classes agreeing on flat
         # (must always hold) and on the reuse scope (fails for mixed lxc/remote worker sets under a partial pool_scope: those
